@@ -46,7 +46,7 @@ Proof. exact kfdc_exact_refuted. Qed.
 Print Assumptions C04_full_statement_refuted.
 
 Theorem C04_small_flow_on_cycle_edge_is_infeasible : forall (I : kfdc_inst) (a : var -> Q) e,
-  In e (kept_edges I) -> is_scc_edge (c_graph I) e = true -> In e (map fst (c_flow I)) ->
+  c_scale_free I = false -> In e (kept_edges I) -> is_scc_edge (c_graph I) e = true -> In e (map fst (c_flow I)) ->
   (0 < flow_of I e < 1)%Q -> ~ sat a (encode_kfdc I).
 Proof. exact kfdc_small_flow_infeasible. Qed.
 Print Assumptions C04_small_flow_on_cycle_edge_is_infeasible.
